@@ -87,3 +87,12 @@ Definition facts_ok (F : list stmt_fact) : bool := forallb (fact_ok1 F) expected
 Definition fact_known (f : stmt_fact) : bool :=
   existsb (fun e => String.eqb (e_op e) (sf_op f) && Nat.eqb (e_idx e) (sf_idx f)) expected.
 Definition facts_all_known (F : list stmt_fact) : bool := forallb fact_known F.
+
+(* Statement size: SQLite refuses a statement with more bind variables than SQLITE_MAX_VARIABLE_NUMBER (read by the
+   translator from the sqlite3 amalgamation that go-sqlite3 compiles).  The number of placeholders of a statement of a
+   full chunk, with one element in every other slice involved (one flag), must stay below it. *)
+Definition lv_max (chunk : N) (v : lenvar) : N := match v with VChunk => chunk | VWhole => chunk | VOther _ => 1 end.
+Definition term_max (chunk : N) (t : term) : N := t_coef t * fold_right (fun v acc => lv_max chunk v * acc) 1 (t_vars t).
+Definition cnt_max (chunk : N) (c : cnt) : N := fold_right (fun t acc => term_max chunk t + acc) 0 c.
+Definition stmt_vars_ok (maxv : N) (f : stmt_fact) : bool := N.leb (cnt_max (sf_chunk f) (sf_ph f)) maxv.
+Definition vars_ok (maxv : N) (F : list stmt_fact) : bool := forallb (stmt_vars_ok maxv) F.
